@@ -11,10 +11,13 @@ RULE = ("case = random schema model (every type kind, wrappers to depth 3, argum
         "with defaults of every value kind incl. strings with quotes, newlines and unicode, interfaces with several "
         "implementers, unions, renamed roots, descriptions, @deprecated with and without reason on fields and enum values, "
         "@nonIntrospectable fields, 0-3 custom directives with arbitrary location sets applied throughout) printed with a "
-        "random part of every definition moved into `extend` definitions (all eight extension kinds) and supplied in all "
+        "random part of every definition moved into `extend` definitions (all eight extension kinds; type-level directives on "
+        "the definition, on a member-carrying extension or on a directive-only extension; schema directives in all three "
+        "placements) and supplied in all "
         "four ways: one string, one file, a shuffled list of files (extensions may precede their targets), a directory tree "
         "of .sdl/.graphql files. Oracle: the full introspection query, compared with the expected result computed from the "
-        "model: exact type-name set (only built-in scalars and meta-types may be extra), kinds, descriptions, field / "
+        "model: exact type-name set (extra only: meta-types and what the same tree reports for a one-field schema - the "
+        "engine's own built-ins - each reported identically), kinds, descriptions, field / "
         "argument / input-field / enum-value sets, wrapped types, default values parsed back as GraphQL values, interfaces, "
         "possibleTypes, roots, directive names/locations/arguments, deprecation flags and reasons, includeDeprecated "
         "filtering, hidden fields; __type(name) for every name equals its __schema.types entry and is null for unknown "
